@@ -80,6 +80,20 @@ PROPS['C11'] = dict(
     not_covered=['behaviour of later transactions after E2 (demonstrated by replays/repro.rs e2)', 'short writes inside write_all (std retries; modelled as Ok or Err)'],
 )
 
+PROPS['C03'] = dict(
+    level='proof',
+    units=['txn', 'freelist', 'commit'],
+    explanation='Snapshot protection: Tx::new (X1) is verified on its real body: a writer releases exactly the pending pages of transactions older than '
+                'open_ro_txs[0] (the oldest open reader, because the list is kept ascending: lock invariant re-established at every guard release) or, '
+                'with no reader, older than itself (F2 is an equality: nothing more, nothing less); a reader gets an unchanged copy of the free list and registers its '
+                'snapshot id exactly once; ending a reader (X2, the body of Drop for TxInner) removes exactly one occurrence and keeps the order. '
+                'F1/T1: allocation only from the free set or fresh pages; W1(w1): commit writes only allocated pages. L2 (invariant over all interleavings) is the paper composition.',
+    level_text='Contracts on the real begin/end/allocate/release/commit code for all states; unbounded numbers of readers, writers and pages.',
+    level_note='Single-threaded interleavings only (sequential view of the locks). Assumes A1/A2 of the tree layer. L2 on paper.',
+    assumptions=[A_TOOLS, A_ARITH, A_SEQ, A_TREE, A_VIEWS, A_FILE, 'file well-formedness precondition of Tx::new: the free-list page named by the current header lies inside the map (C05 of the state before)'],
+    not_covered=['thread interleavings (C04)', 'that the tree layer never frees a page still reachable from an open snapshot (A1)'],
+)
+
 PENDING = 'not claimed yet in this build session: deciding units are not built (see DESIGN section 10)'
 NOT_APPLICABLE = {
     'C04': 'quantifies over thread schedules; Kani has no threads, Verus would need the code rewritten onto its permission types (a model) — DESIGN section 6',
@@ -87,5 +101,5 @@ NOT_APPLICABLE = {
     'C13': 'quantifies over schedules of OS processes and flock semantics; a sequential contract cannot decide mutual exclusion — DESIGN section 6',
     'C14': 'quantifies over client programs and is decided by rustc borrow/Send checking of each program, not by contracts on jammdb bodies — DESIGN section 6',
 }
-for _p in ['C01', 'C03', 'C05', 'C06', 'C07', 'C08', 'C16']:
+for _p in ['C01', 'C05', 'C06', 'C07', 'C08', 'C16']:
     NOT_APPLICABLE.setdefault(_p, PENDING)
